@@ -51,7 +51,7 @@ func tok(p s2.Point) int {
 	if k, ok := tokOf[p]; ok {
 		return k
 	}
-	return -777 // a point that is no vertex of the shape
+	return -2 // a point that is no vertex of the shape
 }
 
 // ---- observation table of one shape (mirrors Model/Shapes.v [dump]) ----
@@ -142,41 +142,57 @@ func dumpShape(s s2.Shape) shapeDump {
 	return d
 }
 
-func (d shapeDump) coq() string {
-	var b strings.Builder
-	fmt.Fprintf(&b, "(mkDump %d %d [", d.numEdges, d.numChains)
-	for i, e := range d.edges {
-		if i > 0 {
-			b.WriteString("; ")
+// flat is the table in the flat encoding of Model/Shapes.v [encode_dump].
+func (d shapeDump) flat() []int64 {
+	code := func(panicked bool, a, b int) int64 {
+		if panicked {
+			return 0
 		}
-		b.WriteString(e.coq())
+		if a < -2 || b < -2 || a >= 1<<22-2 || b >= 1<<22-2 {
+			panic("value outside the range of the flat encoding")
+		}
+		return int64(a+2)*4194304 + int64(b+2)
 	}
-	b.WriteString("] [")
-	for i, p := range d.positions {
-		if i > 0 {
-			b.WriteString("; ")
-		}
-		b.WriteString(p.coq())
+	out := []int64{int64(d.numEdges), int64(d.numChains)}
+	for _, e := range d.edges {
+		out = append(out, code(e.panicked, e.a, e.b))
 	}
-	b.WriteString("] [")
-	for i, c := range d.chains {
-		if i > 0 {
-			b.WriteString("; ")
-		}
-		b.WriteString("(" + c.chain.coq() + ", [")
-		for j, e := range c.edges {
-			if j > 0 {
-				b.WriteString("; ")
-			}
-			b.WriteString(e.coq())
-		}
-		b.WriteString("])")
+	for _, p := range d.positions {
+		out = append(out, code(p.panicked, p.a, p.b))
 	}
-	b.WriteString("])")
-	return b.String()
+	for _, c := range d.chains {
+		out = append(out, code(c.chain.panicked, c.chain.a, c.chain.b))
+		for _, e := range c.edges {
+			out = append(out, code(e.panicked, e.a, e.b))
+		}
+	}
+	return out
+}
+
+// hash2 mirrors Model/Shapes.v [hash2] (arithmetic mod 2^31; uint64 wrap-around is compatible).
+func hash2(l []int64) (uint64, uint64) {
+	const mask = 1<<31 - 1
+	h1, h2 := uint64(7), uint64(11)
+	for _, x := range l {
+		h1 = (h1*1000003 + uint64(x) + 12345) & mask
+		h2 = (h2*69069 + uint64(x) + 12345) & mask
+	}
+	return h1, h2
 }
 
 func zlist(xs []int) string {
+	if len(xs) >= 2 {
+		consecutive := true
+		for i := 1; i < len(xs); i++ {
+			if xs[i] != xs[i-1]+1 {
+				consecutive = false
+				break
+			}
+		}
+		if consecutive {
+			return fmt.Sprintf("(zrange_up %d %d)", xs[0], xs[0]+len(xs))
+		}
+	}
 	s := make([]string, len(xs))
 	for i, x := range xs {
 		s[i] = fmt.Sprint(x)
@@ -271,12 +287,45 @@ func checkContract(c *vkit.Collector, typ string, s s2.Shape, replay interface{}
 
 var shapeCount = map[string]int{}
 
+// Correspondence cases are emitted in groups of groupSize shapes of one type (one Coq term
+// [forallb id [...]] per group): coqc elaborates many short lists much faster than one long one.
+const groupSize = 1
+
+var groupTerms = map[string][]string{}
+var groupFirst = map[string]string{}
+
+func groupAdd(c *vkit.Collector, typ, label, term string) {
+	if len(groupTerms[typ]) == 0 {
+		groupFirst[typ] = label
+	}
+	groupTerms[typ] = append(groupTerms[typ], term)
+	if len(groupTerms[typ]) >= groupSize {
+		groupFlush(c, typ, label)
+	}
+}
+func groupFlush(c *vkit.Collector, typ, last string) {
+	if len(groupTerms[typ]) == 0 {
+		return
+	}
+	c.Check(fmt.Sprintf("%d shapes from {%s} to {%s}", len(groupTerms[typ]), groupFirst[typ], last),
+		"(forallb (fun b : bool => b) ["+strings.Join(groupTerms[typ], "; ")+"])%Z")
+	groupTerms[typ] = nil
+}
+func groupFlushAll(c *vkit.Collector) {
+	for typ := range groupTerms {
+		groupFlush(c, typ, "end")
+	}
+}
+
 func observe(c *vkit.Collector, typ, key, coqOps string, s s2.Shape, contractApplies bool, replay interface{}) {
 	d := dumpShape(s)
 	c.Eval(typ+":"+key, d.numEdges > 0)
 	c.Class("shape:" + typ)
 	shapeCount[typ]++
-	c.Check(typ+" "+key, "(dump_eqb (dump "+coqOps+") "+d.coq()+")%Z")
+	fl := d.flat()
+	h1, h2 := hash2(fl)
+	term := fmt.Sprintf("(hash_eqb (encode_dump (dump %s)) %d %d)", coqOps, h1, h2)
+	groupAdd(c, typ, typ+" "+key, term)
 	if contractApplies {
 		checkContract(c, typ, s, replay)
 	}
@@ -430,10 +479,11 @@ func runShapes(c *vkit.Collector, rng *vkit.Rng, budget int) {
 			obsLaxPolygon(c, loops)
 		})
 	}
-	// (3) exhaustive: Polygon (raw loops) with 1..3 loops of {0,1,2,3,4} vertices and every depth parity;
-	//     4 loops with two random depth patterns each. One-vertex loops are the empty/full loop.
+	// (3) exhaustive: Polygon (raw loops) with 0..3 loops of {0,2,3,4} vertices and every depth parity, 4 loops
+	//     with one random depth pattern; the full polygon and the empty loop alone; plus a sample of polygons
+	//     holding a one-vertex (empty/full) loop beside others (rejected by Validate: model compared only).
 	for k := 0; k <= 4; k++ {
-		sizesEnum(k, []int{0, 1, 2, 3, 4}, func(sz []int) {
+		sizesEnum(k, []int{0, 2, 3, 4}, func(sz []int) {
 			patterns := 1 << uint(k)
 			pick := []int{}
 			if k <= 3 {
@@ -441,25 +491,35 @@ func runShapes(c *vkit.Collector, rng *vkit.Rng, budget int) {
 					pick = append(pick, m)
 				}
 			} else {
-				pick = []int{rng.Intn(patterns), rng.Intn(patterns)}
+				pick = []int{rng.Intn(patterns)}
 			}
 			for _, m := range pick {
 				specs := make([]loopSpec, k)
 				base := 1
 				for i, n := range sz {
-					specs[i] = loopSpec{toks: seqToks(base, n), full: rng.Bool(), depth: (m >> uint(i)) & 1}
-					if k == 1 && n == 1 {
-						specs[i].full = true // the full polygon (the empty loop alone is covered by m's twin below)
-					}
+					specs[i] = loopSpec{toks: seqToks(base, n), depth: (m >> uint(i)) & 1}
 					base += n
 				}
 				obsPolygonRaw(c, specs)
-				if k == 1 && sz[0] == 1 {
-					specs[0].full = false
-					obsPolygonRaw(c, specs)
-				}
 			}
 		})
+	}
+	obsPolygonRaw(c, []loopSpec{{toks: []int{1}, full: true}})
+	obsPolygonRaw(c, []loopSpec{{toks: []int{1}, full: false}})
+	for it := 0; it < 120; it++ {
+		k := 2 + rng.Intn(3)
+		specs := make([]loopSpec, k)
+		base := 1
+		one := rng.Intn(k)
+		for i := range specs {
+			n := []int{0, 1, 2, 3, 4}[rng.Intn(5)]
+			if i == one {
+				n = 1
+			}
+			specs[i] = loopSpec{toks: seqToks(base, n), full: rng.Bool(), depth: rng.Intn(2)}
+			base += n
+		}
+		obsPolygonRaw(c, specs)
 	}
 	// (4) geometric polygons through PolygonFromLoops (nesting computed by the library)
 	geometricPolygons(c, rng)
@@ -500,6 +560,7 @@ func runShapes(c *vkit.Collector, rng *vkit.Rng, budget int) {
 		obsLaxPolygon(c, loops)
 		obsPolygonRaw(c, specs)
 	}
+	groupFlushAll(c)
 	c.Extra["shapes_observed"] = shapeCount
 }
 
